@@ -102,6 +102,13 @@ def apply_op(mk, op, obj, R, tag):
     if op == "div":
         c = mk.nonzero(f"c{tag}")
         return obj / c, R / c
+    if op == "warm":
+        # compute lazily cached helpers first (log-determinant, inverse): later results must not depend on it
+        if isinstance(obj, M.SquareMatrix):
+            _ = obj.log_abs_det
+        if isinstance(obj, M.InvertibleMatrix):
+            _ = obj.inv
+        return obj, R
     if op == "sqrt":
         if not isinstance(obj, M.PositiveDefiniteMatrix):
             raise Skip("no sqrt")
@@ -203,10 +210,11 @@ def _encode_kind(rec, kind):
         rec.encoded(getattr(M, best[1]))
 
 
-D2 = [("inv", "T"), ("T", "inv"), ("mul", "inv"), ("inv", "mul"), ("neg", "inv"), ("sqrt", "inv"), ("inv", "sqrt"),
+D2 = [("warm", "T"), ("inv", "T"), ("T", "inv"), ("mul", "inv"), ("inv", "mul"), ("neg", "inv"), ("sqrt", "inv"), ("inv", "sqrt"),
       ("mul", "sqrt"), ("div", "T"), ("mul", "mul"), ("inv", "inv"), ("sqrt", "T")]
 QUICK_D2_KINDS = ["pos_diagonal", "tri_lower", "trifact_neg_lower", "dense_pd", "dense_square", "eig_pd", "lowrank_sym",
-                  "lowrank_square_neg", "blockdiag_pd", "scaled_orthogonal", "inv_lu", "dense_def_neg"]
+                  "lowrank_square_neg", "blockdiag_pd", "scaled_orthogonal", "inv_lu", "dense_def_neg", "lowrank_square_k2",
+                  "lowrank_square_k2_cap"]
 HEAVY = ("lowrank_pd", "dense_pd_product")  # Cholesky/sqrtm chains: seconds per obligation
 
 
